@@ -5,13 +5,17 @@ From Coq Require Import List Arith Bool.
 From Verif Require Import Model.C11_Creds.
 Import ListNotations.
 
-Record case := mkCase { c_acts : list act; c_obs : list (nat * nat) }.
+(* c_seq: the operations of the case issue one request at a time.  Image copy does not: a request that was already in
+   flight when a challenge arrived is observed after it, without credentials, and the sequential model then predicts a
+   transmission that did not happen.  The direction that matters for the property - every transmission the hosts
+   observed is one the model predicts - is required of every case, the converse of the sequential ones *)
+Record case := mkCase { c_acts : list act; c_obs : list (nat * nat); c_seq : bool }.
 
 Definition pairs (l : list sent) : list (nat * nat) := flat_map (fun s => match s with SCred o d => [(o, d)] | _ => [] end) l.
 Definition mem2 (p : nat * nat) (l : list (nat * nat)) : bool := existsb (fun q => Nat.eqb (fst p) (fst q) && Nat.eqb (snd p) (snd q)) l.
 Definition subset2 (a b : list (nat * nat)) : bool := forallb (fun p => mem2 p b) a.
 Definition check (c : case) : bool :=
-  let m := pairs (run true [] (c_acts c)) in subset2 m (c_obs c) && subset2 (c_obs c) m.
+  let m := pairs (run true [] (c_acts c)) in subset2 (c_obs c) m && (negb (c_seq c) || subset2 m (c_obs c)).
 
 Fixpoint mismatches_from (i : nat) (cs : list case) : list nat :=
   match cs with
